@@ -314,7 +314,8 @@ def gen_lifecycle(rng, i):
     return "life%d %s" % (i, " ".join(ops)), {"kind": "lifecycle", "ncomp": ncomp}
 
 
-def run_sim(chk, cases, oracle, what, timeout=1500, leaks=False):
+def run_sim(chk, cases, oracle, what, timeout=1500, leaks=False, compare=True):
+    """compare=True runs every scenario twice (two processes) and demands identical traces: a determinism check of the simulator."""
     sim, o = build_sim()
     if not sim:
         chk.broken_obligation("sim-build", o[-3000:])
@@ -326,10 +327,12 @@ def run_sim(chk, cases, oracle, what, timeout=1500, leaks=False):
         if aborted(out):
             return "an internal assertion of libnice was reached (abort) during the scenario"
         _id, evs = parse_trace(out)
-        return oracle(line, evs, metas.get(line.split()[0], {}))
+        m = dict(metas.get(line.split()[0], {})); m["_out"] = out
+        return oracle(line, evs, m)
     vlib.correspond(chk, [(l, metas[l.split()[0]].get("kind", "sim")) for l in lines], sim, sim, oracle=orc, what=what,
-                    nontrivial=lambda l, o_: o_ is not None and "READY" in o_, timeout=timeout,
-                    env={"ASAN_OPTIONS": "detect_leaks=%d:abort_on_error=0" % (1 if leaks else 0), "G_SLICE": "always-malloc"})
+                    nontrivial=lambda l, o_: o_ is not None and "READY" in o_, timeout=timeout, compare=compare,
+                    env=dict({"ASAN_OPTIONS": "detect_leaks=%d:abort_on_error=0" % (1 if leaks else 0), "G_SLICE": "always-malloc"},
+                             **({"SIM_LEAKCHECK": "1", "LSAN_OPTIONS": "max_leaks=4"} if leaks else {})))
 
 
 # ------------------------------------------------------------------ C03: attacker scenarios and oracles
@@ -810,4 +813,87 @@ def oracle_gather(evs, meta):
             late = [e for e in evs if e.kind == "sig" and e.f[1] == "new-candidate" and e.f[3] == str(c) and tdone < e.t < tnext]
             if late:
                 return "candidate announced after gathering-done: %s" % " ".join(late[0].f)
+    return None
+
+
+# ------------------------------------------------------------------ C12: random API programs
+def gen_api_program(rng, i):
+    """C12: up to 60 calls drawn from the public agent API with valid and stale stream/component ids, main-loop iterations and peer
+    traffic interleaved at every point, optional TURN/STUN servers; ends with close_async / unref in random order."""
+    opts = tuple(rng.choice([0, OPT_REGULAR]) | (OPT_CONSENT if rng.random() < 0.3 else 0) | (OPT_TRICKLE if rng.random() < 0.2 else 0) for _ in (0, 1))
+    ncomp = rng.choice([1, 2])
+    ips = (("10.0.0.1",), ("10.0.1.1",)) if rng.random() < 0.7 else (("10.0.0.1", "10.0.0.2"), ("10.0.1.1",))
+    ops = ["seed,%d" % rng.randrange(1, 1 << 30)]
+    for k in (0, 1):
+        ops.append("agent,%d,0,%d,%d,%s" % (k, rng.randrange(2), opts[k], ",".join(ips[k])))
+    ops.append("net,%s,%s,1,%d,3" % (rng.choice([0, 0, 0.2]), rng.choice([0, 0.1]), rng.choice([1, 30])))
+    servers = rng.random() < 0.4
+    if servers:
+        ops += ["server,10.9.0.1,3478,%s" % rng.choice(["nat", "silent", "ok"]), "server,10.9.1.1,3478,%s" % rng.choice(["ok", "ok", "silent", "turn438", "err401"])]
+        ops += ["stun,%d,10.9.0.1,3478" % rng.randrange(2)]
+    sid = lambda: rng.choice([1, 1, 1, 1, 1, 2, 3, 0, 7])
+    cid = lambda: rng.choice([1, 1, 1, 2, 2, 3, 0, 9])
+    ag = lambda: rng.randrange(2)
+    # a plausible prefix most of the time, so that the random calls hit a live session
+    if rng.random() < 0.8:
+        ops += ["stream,0,%d" % ncomp, "stream,1,%d" % ncomp]
+        if servers and rng.random() < 0.7:
+            ops += ["relay,%d,1,%d,10.9.1.1,3478" % (ag(), c) for c in range(1, ncomp + 1)]
+        if rng.random() < 0.8:
+            ops += ["gather,0,1", "gather,1,1", "run,%d" % rng.choice([0, 30, 2500])]
+            if rng.random() < 0.8:
+                ops += signalling(rng, ncomp) + ["run,%d" % rng.choice([0, 40, 300, 6000])]
+    calls = rng.randrange(5, 60)
+    for _ in range(calls):
+        r = rng.random(); a = ag()
+        if r < 0.06: ops.append("stream,%d,%d" % (a, rng.choice([1, 2])))
+        elif r < 0.12: ops.append("remove_stream,%d,%d" % (a, sid()))
+        elif r < 0.18: ops.append("gather,%d,%d" % (a, sid()))
+        elif r < 0.24: ops.append("creds,%d,%d,%d" % (a, 1 - a, rng.choice([1, 1, 2])))
+        elif r < 0.32: ops.append("cands,%d,%d,%d,%d" % (a, 1 - a, rng.choice([1, 1, 2]), rng.choice([1, 1, 2])))
+        elif r < 0.36: ops += ["sdpgen,%d" % a, "sdpparse,%d,%d" % (1 - a, a)]
+        elif r < 0.40 and servers: ops.append("relay,%d,%d,%d,10.9.1.1,3478" % (a, sid(), cid()))
+        elif r < 0.45: ops.append(rng.choice(["restart,%d" % a, "restart_stream,%d,%d" % (a, sid())]))
+        elif r < 0.55: ops.append("send,%d,%d,%d,%d,%d" % (a, sid(), cid(), rng.choice([1, 100, 1472, 20000]), rng.randrange(200)))
+        elif r < 0.59: ops.append(rng.choice(["detach,%d,%d,%d", "attach,%d,%d,%d"]) % (a, sid(), cid()))
+        elif r < 0.63: ops.append("set_selected,%d,%d,%d" % (a, sid(), cid()))
+        elif r < 0.66: ops.append("setremote,%d,%d,%d" % (a, sid(), cid()))
+        elif r < 0.70: ops.append("consent_lost,%d,%d,%d" % (a, sid(), cid()))
+        elif r < 0.73: ops.append("forget,%d,%d,%d" % (a, sid(), cid()))
+        elif r < 0.76: ops.append(rng.choice(["getcreds,%d,%d" % (a, sid()), "localcands,%d,%d,%d" % (a, sid(), cid()), "remotecands,%d,%d,%d" % (a, sid(), cid()),
+                                              "state,%d,%d,%d" % (a, sid(), cid()), "selected,%d,%d,%d" % (a, sid(), cid())]))
+        elif r < 0.78: ops.append("peerrfx,%d,%d,%d,%d" % (a, 1 - a, rng.choice([1, 1, 2]), rng.choice([1, 2])))
+        elif r < 0.80: ops.append(rng.choice(["tos,%d,%d,46" % (a, sid()), "name,%d,%d,audio" % (a, sid()), "setcreds,%d,%d,abcd,abcdefghijklmnopqrstuvwx" % (a, sid())]))
+        elif r < 0.82: ops.append("hole,10.0.%d.1,10.0.%d.1,%s" % (a, 1 - a, rng.choice(["on", "off"])))
+        else: ops.append("run,%d" % rng.choice([0, 1, 10, 25, 300, 5000, 31000]))
+    # the end: idle measurement, then tear-down in a random order
+    ops += ["run,3000", "run,20000,idle"]
+    tail = []
+    for k in rng.sample([0, 1], 2):
+        if rng.random() < 0.4:
+            tail += ["close,%d" % k, "run,%d" % rng.choice([0, 20, 3000])]
+        tail.append("unref,%d" % k)
+        if rng.random() < 0.5:
+            tail.append("run,%d" % rng.choice([0, 50]))
+    ops += tail
+    return "api%d %s" % (i, " ".join(ops)), {"kind": "api-program", "ncomp": ncomp}
+
+
+def oracle_api_program(evs, meta, out):
+    if " LEAK" in out:
+        return "memory still allocated (LeakSanitizer) after the last reference was dropped and the main context drained"
+    if " SPIN " in out:
+        return "the main loop kept dispatching without going back to sleep: " + out[out.index(" SPIN "):][:120]
+    for e in evs:
+        if e.kind == "end" and e.f and e.f[0] != "live_sockets=0":
+            return "sockets still open after the last reference was dropped and the main context drained: %s" % e.f[0]
+        if e.kind == "stat" and "idle" in " ".join(e.f):
+            pass
+    # idle dispatch rate: 20 s window with no API call and no new signalling; the busiest legitimate timers are the conncheck /
+    # discovery ticks (Ta = 20 ms, only while checks or gathering are pending) and keepalives
+    for e in evs:
+        if e.kind == "stat" and e.f[0] == "run" and e.f[1] == "20000":
+            d = int(e.f[-1].split("=")[1])
+            if d > 20000 / 20 * 2 * 3 + 4000:     # two agents, <= 3 Ta-paced timers each, plus slack for packets
+                return "%d main-loop dispatches in 20 s of idle virtual time (timers firing faster than their periods)" % d
     return None
